@@ -70,6 +70,13 @@ func yamlFor(missing map[string]bool) []byte {
 	return []byte(sb.String())
 }
 
+// QHolder / QDep: a required qualified point with exactly ONE type-compatible candidate.
+type QDep struct{ zoo.Core }
+type QHolder struct {
+	zoo.Core
+	Dep *QDep `wire:",qualifier=red"`
+}
+
 type Runner struct{ zoo.Core }
 
 func (r *Runner) Run() error {
@@ -130,10 +137,11 @@ type Base struct {
 	Loaders  int
 	Obs      int
 	EmptyCfg bool
+	QPair    bool
 }
 
 func (b *Base) String() string {
-	return fmt.Sprintf("%s cfgA=%v cfgB=%v runners=%d loaders=%d obs=%d", b.S.Shape(), b.CfgA, b.CfgB, b.Runners, b.Loaders, b.Obs)
+	return fmt.Sprintf("%s cfgA=%v cfgB=%v runners=%d loaders=%d obs=%d qpair=%v", b.S.Shape(), b.CfgA, b.CfgB, b.Runners, b.Loaders, b.Obs, b.QPair)
 }
 
 type Site struct {
@@ -227,6 +235,19 @@ func build(b *Base, faults []Site) *built {
 		c := &CfgB{}
 		c.B = &zoo.Beh{Alias: "cfg-b", Mask: "m0"}
 		bu.cfgIDs = append(bu.cfgIDs, addExtra(c, c.B))
+	}
+	if b.QPair {
+		q := "red"
+		for _, f := range faults {
+			if f.Kind == "unsat-qual" {
+				q = "blue" // the only candidate now carries another qualifier: the required point is unsatisfiable
+			}
+		}
+		h, d := &QHolder{}, &QDep{}
+		h.B = &zoo.Beh{Alias: "q-holder", Mask: "m0"}
+		d.B = &zoo.Beh{Alias: "q-dep", Mask: q}
+		addExtra(h, h.B)
+		addExtra(d, d.B)
 	}
 	for i := 0; i < b.Runners; i++ {
 		r := &Runner{}
@@ -334,6 +355,10 @@ func sites(b *Base) []Site {
 		out = append(out, Site{Kind: "loader", A: j})
 	}
 	out = append(out, Site{Kind: "factory-pp"})
+	if b.QPair {
+		out = append(out, Site{Kind: "unsat-qual"})
+		names = append(names, "q-holder", "q-dep")
+	}
 	for _, nm := range names {
 		out = append(out, Site{Kind: "scanner", Name: nm})
 	}
@@ -517,7 +542,7 @@ func genBase(t *rapid.T) *Base {
 		if s.Nodes[i].Variant != 'N' {
 			continue
 		}
-		c := g.ByPtr[reflect.ValueOf(in.Comps[i]).Pointer()]
+		c := g.Find(in.Comps[i])
 		sat := true
 		for _, p := range g.Points[c] {
 			if (p.Field.Name == "QS" || p.Field.Name == "Nx") && !p.Satisfiable() {
@@ -529,7 +554,7 @@ func genBase(t *rapid.T) *Base {
 		}
 	}
 	return &Base{S: s, CfgA: rapid.Bool().Draw(t, "cfga"), CfgB: rapid.Bool().Draw(t, "cfgb"),
-		Runners: rapid.IntRange(1, 3).Draw(t, "runners"), Loaders: rapid.IntRange(1, 2).Draw(t, "loaders"), Obs: rapid.IntRange(0, 2).Draw(t, "obs")}
+		QPair: rapid.Bool().Draw(t, "qpair"), Runners: rapid.IntRange(1, 3).Draw(t, "runners"), Loaders: rapid.IntRange(1, 2).Draw(t, "loaders"), Obs: rapid.IntRange(0, 2).Draw(t, "obs")}
 }
 
 // TestSingleFaults: for each drawn base, the clean run and EVERY single fault site.
